@@ -68,6 +68,8 @@ struct RunRes {
     cancel_raised_at: Option<u64>,
     probe: Option<(bool, String, Vec<String>)>,
     limit_check: Vec<String>,
+    /// Second phase: (ok, error text, tick at which cancellation was re-raised, tick at stop, ticks before phase).
+    again: Option<(bool, String, u64, u64, u64)>,
 }
 
 struct RunCfg {
@@ -78,6 +80,9 @@ struct RunCfg {
     cancel_at_poll: Option<u64>,
     depth: Option<u64>,
     probe: bool,
+    /// After a failed evaluation (and the probe): evaluate the last program again on the same
+    /// evaluator and raise cancellation `again_cancel_offset` ticks into it.
+    again_cancel_offset: Option<u64>,
 }
 
 fn run(evals: &[String], cfg: &RunCfg, loader: Option<&kit::MapLoader>) -> RunRes {
@@ -86,21 +91,23 @@ fn run(evals: &[String], cfg: &RunCfg, loader: Option<&kit::MapLoader>) -> RunRe
     let tick_counter = Rc::new(Cell::new(0u64));
     let raised_at = Rc::new(Cell::new(None::<u64>));
     let flag = kit::ctx(|c| c.cancel.clone());
+    let again_at: Rc<Cell<Option<u64>>> = Rc::new(Cell::new(None));
     {
         let tc = tick_counter.clone();
         let ra = raised_at.clone();
         let fl = flag.clone();
         let at = cfg.cancel_at_tick;
+        let at2 = again_at.clone();
         sched::set_tick_hook(Some(Box::new(move || {
             let k = tc.get() + 1;
             tc.set(k);
-            if Some(k) == at {
+            if Some(k) == at || Some(k) == at2.get() {
                 fl.set(true);
                 ra.set(Some(k));
             }
         })));
     }
-    let mut res = RunRes { outcomes: vec![], transcripts: vec![], ticks: vec![], cancel_raised_at: None, probe: None, limit_check: vec![] };
+    let mut res = RunRes { outcomes: vec![], transcripts: vec![], ticks: vec![], cancel_raised_at: None, probe: None, limit_check: vec![], again: None };
     Module::with_temp_heap(|module| {
         let mut eval = Evaluator::new(&module);
         if let Some(l) = loader {
@@ -173,13 +180,33 @@ fn run(evals: &[String], cfg: &RunCfg, loader: Option<&kit::MapLoader>) -> RunRe
             });
             res.ticks.push(eval.get_total_tick_count());
         }
+        if let (true, Some(off)) = (failed, cfg.again_cancel_offset) {
+            flag.set(false);
+            raised_at.set(None);
+            let before_ticks = eval.get_total_tick_count();
+            // The hook counter and the evaluator's counter advance together.
+            again_at.set(Some(tick_counter.get() + off));
+            let delta = before_ticks as i64 - tick_counter.get() as i64;
+            let text = evals.last().cloned().unwrap_or_default().replace("def ", "def again_");
+            let _ = text;
+            let r = match kit::parse("again.star", evals.last().map(|s| s.as_str()).unwrap_or("")) {
+                Err(e) => Err(e),
+                Ok(ast) => eval.eval_module(ast, kit::globals()).map(|_| ()),
+            };
+            let stop = eval.get_total_tick_count();
+            let raised = raised_at.get().map(|k| (k as i64 + delta) as u64).unwrap_or(0);
+            res.again = Some(match r {
+                Ok(()) => (true, String::new(), raised, stop, before_ticks),
+                Err(e) => (false, format!("[{}] {}", kit::error_kind(&e), e.without_diagnostic()), raised, stop, before_ticks),
+            });
+        }
     });
     sched::set_tick_hook(None);
     res
 }
 
 fn fresh_probe() -> Vec<String> {
-    let r = run(&[PROBE.to_owned()], &RunCfg { budget: None, cancel_at_tick: None, cancel_at_poll: None, depth: None, probe: false }, None);
+    let r = run(&[PROBE.to_owned()], &RunCfg { budget: None, cancel_at_tick: None, cancel_at_poll: None, depth: None, probe: false, again_cancel_offset: None }, None);
     r.transcripts[0].clone()
 }
 
@@ -214,6 +241,17 @@ fn shape_program(shape: &str) -> (String, String) {
     (defs, call)
 }
 
+fn frozen_lib() -> FrozenModule {
+    Module::with_temp_heap(|m| {
+        {
+            let mut e = Evaluator::new(&m);
+            let ast = kit::parse("lib.star", "def g(x):\n    y = x\n    return y\ndef gg(n):\n    if n == 0:\n        return 0\n    return 1 + gg(n - 1)\nSG = struct(g = g)\n").unwrap();
+            e.eval_module(ast, kit::globals()).unwrap();
+        }
+        m.freeze().unwrap()
+    })
+}
+
 fn frozen_direct() -> FrozenModule {
     Module::with_temp_heap(|m| {
         {
@@ -242,7 +280,7 @@ fn run_depth(shape: &str, n: Option<u64>, d: u64, probe: bool) -> (DepthOutcome,
     } else {
         (format!("{defs}{}\n", call.replace("{D}", &d.to_string())), None)
     };
-    let r = run(&[text], &RunCfg { budget: None, cancel_at_tick: None, cancel_at_poll: None, depth: n, probe }, l);
+    let r = run(&[text], &RunCfg { budget: None, cancel_at_tick: None, cancel_at_poll: None, depth: n, probe, again_cancel_offset: None }, l);
     let out = match &r.outcomes[0] {
         (true, _) => DepthOutcome::Ok(r.transcripts[0].clone()),
         (false, e) if e.starts_with("[StackOverflow]") => DepthOutcome::Overflow,
@@ -349,7 +387,7 @@ impl World for C15 {
         o.digest = fnv(case.to_string().as_bytes());
         let mode = case["mode"].as_str().unwrap_or("");
         let evals: Vec<String> = case["evals"].as_array().map(|a| a.iter().filter_map(|x| x.as_str().map(|s| s.to_owned())).collect()).unwrap_or_default();
-        let none = RunCfg { budget: None, cancel_at_tick: None, cancel_at_poll: None, depth: None, probe: false };
+        let none = RunCfg { budget: None, cancel_at_tick: None, cancel_at_poll: None, depth: None, probe: false, again_cancel_offset: None };
         let mut log: Vec<String> = Vec::new();
         match mode {
             "budget" | "cancel" => {
@@ -398,7 +436,7 @@ impl World for C15 {
                         if o.violation.is_some() {
                             break;
                         }
-                        let r = run(&evals, &RunCfg { budget: Some(b), cancel_at_tick: None, cancel_at_poll: None, depth: None, probe: true }, None);
+                        let r = run(&evals, &RunCfg { budget: Some(b), cancel_at_tick: None, cancel_at_poll: None, depth: None, probe: true, again_cancel_offset: None }, None);
                         o.sim_time += r.ticks.iter().copied().max().unwrap_or(0);
                         log.push(format!("b={b} outcomes={:?} ticks={:?}", r.outcomes, r.ticks));
                         // Model: evaluation i fails iff cumulative ticks at its end exceed b
@@ -502,11 +540,12 @@ impl World for C15 {
                     let key = "cancel";
                     let mut cfgs: Vec<(String, RunCfg)> = ts
                         .iter()
-                        .map(|t| (format!("tick {t}"), RunCfg { budget: None, cancel_at_tick: Some(*t), cancel_at_poll: None, depth: None, probe: true }))
+                        .enumerate()
+                        .map(|(i, t)| (format!("tick {t}"), RunCfg { budget: None, cancel_at_tick: Some(*t), cancel_at_poll: None, depth: None, probe: true, again_cancel_offset: if i % 3 == 0 { Some(1 + (t * 7 + 13) % (t_total.max(2) - 1)) } else { None } }))
                         .collect();
                     if let Some(p) = case["polls"].as_array() {
                         for x in p.iter().filter_map(|v| v.as_u64()) {
-                            cfgs.push((format!("poll {x}"), RunCfg { budget: None, cancel_at_tick: None, cancel_at_poll: Some(x), depth: None, probe: true }));
+                            cfgs.push((format!("poll {x}"), RunCfg { budget: None, cancel_at_tick: None, cancel_at_poll: Some(x), depth: None, probe: true, again_cancel_offset: Some(1 + x * 97 % t_total.max(1)) }));
                         }
                     }
                     for (what, cfg) in cfgs {
@@ -557,6 +596,21 @@ impl World for C15 {
                                                 o.violate("probe-differs-after-limit", key, format!("{what}: probe ok={pok} `{perr}` {:?}", kit::diff_transcripts(&probe_ref, pt)));
                                             }
                                         }
+                                        // Evaluator re-use with a renewed cancellation request.
+                                        if let Some((aok, aerr, araised, astop, abefore)) = &r.again {
+                                            o.bump("probe.recancel_on_reused_evaluator", 1);
+                                            let main_cost = reference.ticks.last().unwrap() - if reference.ticks.len() > 1 { reference.ticks[reference.ticks.len() - 2] } else { 0 };
+                                            if *araised == 0 {
+                                                // Offset beyond the end of the program: must simply succeed.
+                                                if !*aok {
+                                                    o.violate("within-limit-affected", key, format!("{what}: re-run on the re-used evaluator failed without a request: {aerr}"));
+                                                }
+                                            } else if *aok {
+                                                o.violate("cancellation-ignored", key, format!("{what}: on the re-used evaluator (ticks before {abefore}) cancellation re-raised at tick {araised} was ignored for a program of {main_cost} ticks"));
+                                            } else if !aerr.contains("Evaluation cancelled") || astop.saturating_sub(*araised) > 1000 {
+                                                o.violate("cancellation-late", key, format!("{what}: on the re-used evaluator cancellation re-raised at tick {araised}, evaluation stopped at tick {astop} with `{aerr}`"));
+                                            }
+                                        }
                                     }
                                 }
                             }
@@ -567,7 +621,7 @@ impl World for C15 {
                         let mut e2 = evals.clone();
                         let last = e2.len() - 1;
                         e2[last] = e2[last].replace("        acc += i\n", "        acc += i\n        if i == 7:\n            cancel()\n");
-                        let r = run(&e2, &RunCfg { budget: None, cancel_at_tick: None, cancel_at_poll: None, depth: None, probe: true }, None);
+                        let r = run(&e2, &RunCfg { budget: None, cancel_at_tick: None, cancel_at_poll: None, depth: None, probe: true, again_cancel_offset: None }, None);
                         if let Some(t) = r.cancel_raised_at {
                             o.bump("fault.cancellation_raised", 1);
                             o.bump("probe.cancel_from_inside_program", 1);
@@ -596,7 +650,12 @@ impl World for C15 {
                     // Every call path must be counted: n more calls cost a constant, non-zero number of ticks.
                     // The loop driving the calls costs (b - a) per iteration, measured above.
                     let per_iter = b - a;
-                    let paths: [(&str, &str, &str); 7] = [
+                    let lib = frozen_lib();
+                    let lib_loader = kit::MapLoader { modules: [("lib".to_owned(), lib)].into_iter().collect() };
+                    let paths: [(&str, &str, &str); 10] = [
+                        ("frozen_loaded", "load(\"lib\", \"g\")\n", "g(i)"),
+                        ("frozen_internal_calls", "load(\"lib\", \"gg\")\n", "gg(3)"),
+                        ("frozen_struct_attr", "load(\"lib\", \"SG\")\n", "SG.g(i)"),
                         ("def", "def g(x):\n    return x\n", "g(i)"),
                         ("lambda", "g = lambda x: x\n", "g(i)"),
                         ("struct_attr", "def g0(x):\n    return x\nS = struct(g = g0)\n", "S.g(i)"),
@@ -608,9 +667,16 @@ impl World for C15 {
                     let which = (o.digest % paths.len() as u64) as usize;
                     let (pname, defs, call) = paths[which];
                     let fc = |n: u64| {
-                        let r = run(&[format!("{defs}def drive(n):\n    for i in range(n):\n        {call}\ndrive({n})\n")], &none, None);
+                        let r = run(&[format!("{defs}def drive(n):\n    for i in range(n):\n        {call}\ndrive({n})\n")], &none, Some(&lib_loader));
                         r.ticks[0]
                     };
+                    // A non-inlinable recursive def costs the same ticks whether it is defined locally
+                    // or loaded from a frozen module (ticks count calls, on every call path).
+                    let local = run(&["def gg(n):\n    if n == 0:\n        return 0\n    return 1 + gg(n - 1)\ndef drive(n):\n    for i in range(n):\n        gg(5)\ndrive(10)\n".to_owned()], &none, None).ticks[0];
+                    let loaded = run(&["load(\"lib\", \"gg\")\ndef drive(n):\n    for i in range(n):\n        gg(5)\ndrive(10)\n".to_owned()], &none, Some(&lib_loader)).ticks[0];
+                    if local != loaded {
+                        o.violate("call-not-counted", "ticks-call/frozen_vs_local", format!("recursive def called 10x5 deep: {local} ticks when defined locally, {loaded} when loaded from a frozen module"));
+                    }
                     let (a2, b2, c2) = (fc(10), fc(11), fc(12));
                     o.bump(&format!("probe.call_path_{pname}"), 1);
                     if b2 - a2 != c2 - b2 || b2 - a2 <= per_iter {
